@@ -7,8 +7,15 @@
 //!
 //! Mode `seq`: one case line = `<seed> <hotcold 0/1> <n> op...`; a repository is built over a
 //! permissive map store behind `RecBackend`; every op is a public entry point run on a fresh
-//! handle; output per op `name:ao=<0/1>:<ok|refused|err>:<effect classes>` joined by ` ; `.
+//! handle; output per op `name:ao=<0/1>,c=<0/1>,h=<0/1/->:<ok|refused|err>:lost=<n>:<effect classes>` joined by ` ; `.
 //!   op tokens: `<name> <flag> <dry> <variant>`
+//!   `<hotcold>` is a mode: 0 one store, 1 hot/cold, 2 one store with 64-byte fixed-size chunks
+//!   (`bigbackup` then stores 60 000 blobs, more than the indexer holds before it saves by itself).
+//!   `config_fault` = apply_config (options variant % 10) on a fresh handle with a storage fault at
+//!   one of its config writes (variant / 10: 0 cold fails, 1 hot fails, 2 cold stored but error,
+//!   3 hot stored but error); the handle is kept and ops named `h_<op>` run on it; `keep` keeps a
+//!   fresh handle.  Per op three views of the flag are printed: `ao` what a fresh `open` reads
+//!   (the hot copy for hot/cold), `c` the stored cold config, `h` the kept handle's memory.
 use std::collections::{BTreeMap, BTreeSet};
 use std::sync::{Arc, RwLock};
 
@@ -32,6 +39,9 @@ struct MapBackend {
     /// removing a missing file succeeds (wrap mode: `delete_list` stops at the first error, which
     /// would make the number of forwarded removes depend on the store content)
     lenient_remove: bool,
+    /// fault on the next writes of the config file: 1 = fail, nothing stored; 2 = stored, but an
+    /// error is reported (a backend that persists the file and then loses the connection)
+    config_fault: std::sync::atomic::AtomicU8,
 }
 fn tnum(t: FileType) -> u8 {
     match t {
@@ -107,6 +117,16 @@ impl WriteBackend for MapBackend {
         let mut v = Vec::new();
         for b in content.slice() {
             v.extend_from_slice(b);
+        }
+        if tpe == FileType::Config {
+            match self.config_fault.load(std::sync::atomic::Ordering::SeqCst) {
+                1 => return Err(RusticError::new(ErrorKind::Backend, "injected fault: config not written")),
+                2 => {
+                    self.raw_put(tpe, id, Bytes::from(v));
+                    return Err(RusticError::new(ErrorKind::Backend, "injected fault: config written, error reported"));
+                }
+                _ => {}
+            }
         }
         self.raw_put(tpe, id, Bytes::from(v));
         Ok(())
@@ -229,10 +249,15 @@ struct World {
     nbackup: usize,
     extra_key: Option<Id>,
     other: Option<Box<World>>,
+    /// a handle that is kept across operations (ops named `h_<op>` run on it)
+    kept: Option<RepoOpen>,
 }
 
 impl World {
-    fn new(seed: u64, hotcold: bool) -> Result<Self> {
+    /// mode 0: one store; 1: hot/cold; 2: one store, fixed-size chunker with 64-byte chunks (a few
+    /// MB of data give more blobs than the indexer holds before it saves an index file by itself)
+    fn new(seed: u64, mode: u64) -> Result<Self> {
+        let hotcold = mode == 1;
         let cold = Arc::new(MapBackend::default());
         let rec_cold = RecBackend::new(cold.clone(), "cold");
         let (hot, rec_hot) = if hotcold {
@@ -245,14 +270,32 @@ impl World {
         let (repo, key) = init_repo(
             rec_cold.clone(),
             rec_hot.clone().map(|r| r as Arc<dyn WriteBackend>),
-            &small_pack_config(6_000, 1_500),
+            &(if mode == 2 {
+                ConfigOptions::default().set_chunker(rustic_core::repofile::Chunker::FixedSize).set_chunk_size(bytesize::ByteSize(64))
+            } else {
+                small_pack_config(6_000, 1_500)
+            }),
             &repo_opts(),
         )?;
         drop(repo);
-        Ok(Self { cold, hot, rec_cold, rec_hot, key, rng: SplitMix(seed), dirs: Vec::new(), nbackup: 0, extra_key: None, other: None })
+        Ok(Self { cold, hot, rec_cold, rec_hot, key, rng: SplitMix(seed), dirs: Vec::new(), nbackup: 0, extra_key: None, other: None, kept: None })
     }
     fn open(&self) -> Result<RepoOpen> {
         open_repo(self.rec_cold.clone(), self.rec_hot.clone().map(|r| r as Arc<dyn WriteBackend>), &self.key, &repo_opts())
+    }
+    /// append_only in the stored config of the cold part (read through `open_only_cold`)
+    fn cold_ao(&self) -> Option<bool> {
+        let bes = rustic_core::RepositoryBackends::new(self.rec_cold.clone(), self.rec_hot.clone().map(|r| r as Arc<dyn WriteBackend>));
+        let repo = rustic_core::Repository::new(&repo_opts(), &bes).ok()?;
+        let repo = repo.open_only_cold(&rustic_core::Credentials::Masterkey(self.key.clone())).ok()?;
+        Some(repo.config().append_only == Some(true))
+    }
+    /// the handle an op runs on: the kept one for `h_` ops, a fresh one otherwise
+    fn take(&mut self, same: bool) -> Result<RepoOpen> {
+        if same { self.kept.take().ok_or_else(|| anyhow!("no kept handle")) } else { self.open() }
+    }
+    fn give(&mut self, same: bool, repo: RepoOpen) {
+        if same { self.kept = Some(repo); }
     }
     fn new_source(&mut self) -> Result<std::path::PathBuf> {
         let tp = TreeParams { max_entries: 8, max_depth: 3, max_file: 9_000, odd_names: false, symlinks: true, hardlinks: false };
@@ -286,8 +329,58 @@ fn refused(e: &anyhow::Error) -> bool {
 }
 
 /// run one op; Ok(()) / Err(e)
-fn run_op(w: &mut World, name: &str, flag: bool, dry: bool, variant: u64) -> Result<()> {
+fn config_opts(variant: u64) -> ConfigOptions {
+    match variant {
+        0 => ConfigOptions::default().set_extra_verify(false),
+        1 => ConfigOptions::default().set_append_only(false),
+        2 => ConfigOptions::default().set_append_only(true),
+        3 => ConfigOptions::default().set_append_only(false).set_compression(5),
+        4 => ConfigOptions::default().set_compression(7),
+        _ => ConfigOptions::default().set_treepack_size(bytesize::ByteSize(2_000u64 + variant)),
+    }
+}
+
+fn run_op(w: &mut World, full_name: &str, flag: bool, dry: bool, variant: u64) -> Result<()> {
+    let same = full_name.starts_with("h_");
+    let name = full_name.strip_prefix("h_").unwrap_or(full_name);
     match name {
+        "keep" => {
+            w.kept = Some(w.open()?);
+            Ok(())
+        }
+        "config_fault" => {
+            // apply_config (options = variant % 10) on a fresh handle with a fault at one of its
+            // config writes (variant / 10: 0 cold fails, 1 hot fails, 2 cold stored but error,
+            // 3 hot stored but error); the handle is kept for the following `h_` ops
+            use std::sync::atomic::Ordering::SeqCst;
+            let k = variant / 10;
+            if k % 2 == 1 && w.hot.is_none() { return Err(anyhow!("no hot part")); }
+            let mut repo = w.open()?;
+            let (part, code) = match k { 0 => (w.cold.clone(), 1), 1 => (w.hot.clone().unwrap(), 1), 2 => (w.cold.clone(), 2), _ => (w.hot.clone().unwrap(), 2) };
+            part.config_fault.store(code, SeqCst);
+            let r = repo.apply_config(&config_opts(variant % 10));
+            part.config_fault.store(0, SeqCst);
+            w.kept = Some(repo);
+            let _ = r?;
+            Ok(())
+        }
+        "bigbackup" => {
+            // one file of 60 000 pairwise different 64-byte chunks
+            let d = tempfile::tempdir()?;
+            let mut data = Vec::with_capacity(64 * 60_000);
+            for i in 0..60_000u64 {
+                let mut c = [0u8; 64];
+                c[..8].copy_from_slice(&(i ^ (variant << 40)).to_le_bytes());
+                data.extend_from_slice(&c);
+            }
+            std::fs::write(d.path().join("big"), &data)?;
+            let mut o = BackupOptions::default();
+            o.dry_run = dry;
+            let p = d.path().to_path_buf();
+            w.dirs.push(d);
+            let _ = backup_dir(w.open()?, &p, "big", Some(o))?;
+            Ok(())
+        }
         "backup" => {
             let src = if variant == 1 && !w.dirs.is_empty() { w.dirs[w.dirs.len() - 1].path().to_path_buf() } else { w.new_source()? };
             let mut o = BackupOptions::default();
@@ -308,7 +401,10 @@ fn run_op(w: &mut World, name: &str, flag: bool, dry: bool, variant: u64) -> Res
             if ids.is_empty() {
                 return Err(anyhow!("nothing to forget"));
             }
-            w.open()?.delete_snapshots(&ids)?;
+            let repo = w.take(same)?;
+            let r = repo.delete_snapshots(&ids);
+            w.give(same, repo);
+            r?;
             Ok(())
         }
         "prune" => {
@@ -322,21 +418,26 @@ fn run_op(w: &mut World, name: &str, flag: bool, dry: bool, variant: u64) -> Res
                 5 => PruneOptions::default().keep_delete(z).keep_pack(z).instant_delete(true).max_unused(LimitOption::Percentage(0)).max_repack(LimitOption::Unlimited).fast_repack(true),
                 _ => PruneOptions::default().max_unused(LimitOption::Unlimited).keep_delete(z),
             };
-            let repo = w.open()?;
-            let plan = repo.prune_plan(&o)?;
-            repo.prune(&o, plan)?;
+            let repo = w.take(same)?;
+            let r = repo.prune_plan(&o).and_then(|plan| repo.prune(&o, plan));
+            w.give(same, repo);
+            r?;
             Ok(())
         }
         "repair_index" => {
             let o = RepairIndexOptions::default().read_all(flag);
-            w.open()?.repair_index(&o, dry)?;
+            let repo = w.take(same)?;
+            let r = repo.repair_index(&o, dry);
+            w.give(same, repo);
+            r?;
             Ok(())
         }
         "repair_snapshots" => {
-            let repo = w.open()?.to_indexed()?;
-            let snaps = repo.get_all_snapshots()?;
+            let repo = w.take(same)?.to_indexed()?;
             let o = RepairSnapshotsOptions::default().delete(flag);
-            repo.repair_snapshots(&o, snaps, dry)?;
+            let r = repo.get_all_snapshots().and_then(|snaps| repo.repair_snapshots(&o, snaps, dry));
+            w.give(same, repo.drop_index());
+            r?;
             Ok(())
         }
         "rewrite" => {
@@ -344,28 +445,25 @@ fn run_op(w: &mut World, name: &str, flag: bool, dry: bool, variant: u64) -> Res
             let mut o = RewriteOptions::default().modification(m).forget(flag);
             o.dry_run = dry;
             if variant % 2 == 0 {
-                let repo = w.open()?;
-                let snaps = repo.get_all_snapshots()?;
-                let _ = repo.rewrite_snapshots(snaps, &o)?;
+                let repo = w.take(same)?;
+                let r = repo.get_all_snapshots().and_then(|snaps| repo.rewrite_snapshots(snaps, &o));
+                w.give(same, repo);
+                let _ = r?;
             } else {
-                let repo = w.open()?.to_indexed()?;
-                let snaps = repo.get_all_snapshots()?;
+                let repo = w.take(same)?.to_indexed()?;
                 let to = RewriteTreesOptions::default().excludes(Excludes::default().globs(vec!["!fix0*".to_string(), "!**/fix0*".to_string()]));
-                let _ = repo.rewrite_snapshots_and_trees(snaps, &o, &to)?;
+                let r = repo.get_all_snapshots().and_then(|snaps| repo.rewrite_snapshots_and_trees(snaps, &o, &to));
+                w.give(same, repo.drop_index());
+                let _ = r?;
             }
             Ok(())
         }
         "config" => {
-            let o = match variant {
-                0 => ConfigOptions::default().set_extra_verify(false),
-                1 => ConfigOptions::default().set_append_only(false),
-                2 => ConfigOptions::default().set_append_only(true),
-                3 => ConfigOptions::default().set_append_only(false).set_compression(5),
-                4 => ConfigOptions::default().set_compression(7),
-                _ => ConfigOptions::default().set_treepack_size(bytesize::ByteSize(2_000u64 + variant)),
-            };
-            let mut repo = w.open()?;
-            let _ = repo.apply_config(&o)?;
+            let o = config_opts(variant);
+            let mut repo = w.take(same)?;
+            let r = repo.apply_config(&o);
+            w.give(same, repo);
+            let _ = r?;
             Ok(())
         }
         "add_key" => {
@@ -390,7 +488,7 @@ fn run_op(w: &mut World, name: &str, flag: bool, dry: bool, variant: u64) -> Res
         "copy" => {
             // copy INTO this repository from a second one
             if w.other.is_none() || variant == 1 {
-                let mut o = World::new(w.rng.next(), false)?;
+                let mut o = World::new(w.rng.next(), 0)?;
                 for _ in 0..2 {
                     let src = o.new_source()?;
                     let _ = backup_dir(o.open()?, &src, "src", None)?;
@@ -490,9 +588,10 @@ fn run_op(w: &mut World, name: &str, flag: bool, dry: bool, variant: u64) -> Res
 fn seq_case(line: &str) -> String {
     let mut t = Toks::new(line);
     let seed = t.u();
-    let hotcold = t.u() == 1;
+    let mode = t.u();
+    let hotcold = mode == 1;
     let n = t.u();
-    let mut w = match World::new(seed, hotcold) {
+    let mut w = match World::new(seed, mode) {
         Ok(w) => w,
         Err(e) => return format!("setup-failed {e:?}").replace('\n', " "),
     };
@@ -502,7 +601,11 @@ fn seq_case(line: &str) -> String {
         let flag = t.u() == 1;
         let dry = t.u() == 1;
         let variant = t.u();
+        // three views of the flag: what a fresh handle reads (the hot copy for hot/cold), what the
+        // stored cold config says, what the kept handle holds in memory
         let ao = w.open().map(|r| r.config().append_only == Some(true)).unwrap_or(false);
+        let cold_ao = w.cold_ao().map_or("x".to_string(), |b| u8::from(b).to_string());
+        let handle_ao = w.kept.as_ref().map_or("-".to_string(), |r| u8::from(r.config().append_only == Some(true)).to_string());
         let _ = w.rec_cold.take_log();
         if let Some(h) = &w.rec_hot { let _ = h.take_log(); }
         let pre_c = w.cold.snapshot();
@@ -551,7 +654,7 @@ fn seq_case(line: &str) -> String {
             Err(_) => "panic".to_string(),
         };
         let eff: Vec<String> = cls.iter().map(|(k, v)| format!("{k}*{v}")).collect();
-        outs.push(format!("{name}:ao={}:{res}:lost={lost}:{}", u8::from(ao), if eff.is_empty() { "-".to_string() } else { eff.join(",") }));
+        outs.push(format!("{name}:ao={},c={cold_ao},h={handle_ao}:{res}:lost={lost}:{}", u8::from(ao), if eff.is_empty() { "-".to_string() } else { eff.join(",") }));
     }
     outs.join(" ; ")
 }
